@@ -100,8 +100,12 @@ F_Leaves ==
     [] Family = "ovlt"   -> {Mem("I"), Mem("F")}             \* several overloaded occurrences of different operand types
     [] Family = "ovlarg" -> Ints({1}) \cup {Mem("I"), Mem("J"), Mem("F")}   \* overloaded occurrences inside arguments of every parameter type
     [] Family = "nest2"  -> Ints({1}) \cup Strs({"a"}) \cup {Mem("Ss"), Mem("Xs"), L(NBool(TRUE), "bool")}
+    \* membership of an allocating integer in a range with run-time bounds (each operand is evaluated, and charged, once)
+    [] Family = "allocin" -> {Mem("I"), Mem("J")}
     \* a literal range larger than the default budget, in positions that are evaluated or not
     [] Family = "bigrng" -> Ints({0}) \cup {Mem("B"), L(NBin("..", NInt(1), NInt(2000000)), "[]int")}
+    \* a mapper applied to the result of a mapper, with a builtin of its own inside (each `#` is the element of its own collection)
+    [] Family = "mapmap" -> Ints({1}) \cup {Mem("Xs"), Mem("Ys")}
     \* a pattern that depends on the element of the enclosing closure
     [] Family = "pat"    -> Strs({"a"}) \cup {Mem("S"), Mem("Ss")}
     \* membership in a literal range - ascending, one element, empty - of an operand that may fail
@@ -135,7 +139,8 @@ F_BinOps ==
     [] Family = "access" -> {"+", "=="}
     [] Family = "builtin" -> {">", "==", "+", "and", "%", ".."}
     [] Family = "mixed"  -> {"+", "*", "/", "==", "<", "and", "or", "in", ".."}
-    [] Family = "alloc"  -> {"..", "+"}
+    [] Family = "alloc"  -> {"..", "+", ">"}
+    [] Family = "allocin" -> {"..", "in", "not in"}
     [] Family = "calls"  -> {}
     [] Family = "inlit"  -> {"in", "not in"}
     [] Family = "cexpr"  -> {"+"}
@@ -146,6 +151,7 @@ F_BinOps ==
     [] Family = "nest2"  -> {">", "==", "and"}
     [] Family = "dyn"    -> {"+", "==", "<", "and", "in", "matches", ".."}
     [] Family = "pat"    -> {"matches"}
+    [] Family = "mapmap" -> {">"}
     [] Family = "bigrng" -> {">", "or"}
     [] Family = "inrng"  -> {"in", "not in", ".."}
     [] Family = "order"  -> {"in", "not in", ".."}
@@ -197,10 +203,11 @@ F_Builtins ==
     [] Family = "nest2" -> {"all", "any"}
     [] Family = "dyn" -> AllBuiltins
     [] Family = "pat" -> {"filter", "count", "all", "map"}
+    [] Family = "mapmap" -> {"map", "count"}
     [] Family = "ovl" -> {"map", "filter", "all"}
     [] OTHER -> {}
 
-F_UseLen  == Family \in {"string", "coll", "builtin", "mixed", "alloc", "oversize", "inlit", "rng", "nest", "dyn", "bigrng"}
+F_UseLen  == Family \in {"string", "coll", "builtin", "mixed", "alloc", "oversize", "inlit", "rng", "nest", "dyn", "bigrng", "allocin"}
 F_AnyColl == Family = "dyn"
 F_UseCond == Family \in {"logic", "mixed", "builtin", "oversize", "ovl", "ovlb", "bigrng"}
 F_UseIdx  == Family \in {"coll", "access", "string", "mixed", "builtin", "ovl", "calls", "rng", "dyn", "inrng"}
@@ -211,7 +218,7 @@ F_ArrLens == CASE Family \in {"coll", "mixed", "alloc"} -> {0, 1, 2} [] Family \
                [] Family = "cexpr" -> {1, 2}
                [] Family = "inlit" -> {1, 3} [] Family = "ovconst" -> {3} [] OTHER -> {}
 F_MapLens == CASE Family = "coll" -> {0, 1, 2} [] Family \in {"mixed", "alloc", "ovl"} -> {1} [] OTHER -> {}
-F_ElemLeaves == Family \in {"builtin", "mixed", "alloc", "oversize", "laws", "ovl", "nest", "nest2", "dyn", "pat"}
+F_ElemLeaves == Family \in {"builtin", "mixed", "alloc", "oversize", "laws", "ovl", "nest", "nest2", "dyn", "pat", "mapmap"}
 F_OrderGuard == Family # "order"
 
 (* Constructs whose outcome on the pinned tree is a catalogued deviation     *)
@@ -229,7 +236,8 @@ F_Guard(op, l, r, s) ==
   /\ (op \in {"==", "!="} /\ (IsSliceT(l.ty) \/ IsSliceT(r.ty) \/ IsMapTy(l.ty) \/ IsMapTy(r.ty))
         => (r.e.k = "nil" \/ l.e.k = "nil" \/ (l.e.k = "id" /\ r.e.k = "id" /\ l.ty = r.ty)))
   /\ (op \in {"==", "!="} => ~(l.ty = "any" /\ (IsSliceT(r.ty) \/ IsMapTy(r.ty))) /\ ~(r.ty = "any" /\ (IsSliceT(l.ty) \/ IsMapTy(l.ty))))
-  /\ (op \in {"in", "not in"} /\ Family \notin {"order", "laws", "inrng"} => r.e.k # "bin")
+  /\ (op \in {"in", "not in"} /\ Family \notin {"order", "laws", "inrng", "allocin"} => r.e.k # "bin")
+  /\ (op \in {"in", "not in"} /\ Family = "allocin" => (l.ty = "int" /\ l.e.k = "len" /\ r.e.k = "bin" /\ r.e.op = ".."))
   /\ (op = "in" /\ Family = "laws" => (l.ty \in {"int", "uint64"} /\ r.e.k = "bin"))
   /\ (op \in {"in", "not in"} /\ Family = "inrng" => (l.ty = "int" /\ r.e.k = "bin" /\ r.e.op = ".."))
   /\ (op = ".." /\ Family = "inrng" => (l.e.k = "int" /\ r.e.k = "int"))
@@ -253,13 +261,13 @@ F_Devs == CASE Family \in {"coll", "mixed"} -> {"Dev_InArrayStringUntyped", "Dev
             [] Family = "inlit" -> {"Dev_InArrayStringUntyped"}
             [] Family = "string" -> {"Dev_SliceToBeforeFrom"}
             [] Family = "order" -> {"Dev_SliceToBeforeFrom", "Dev_InRangeRewrite"}
-            [] Family = "alloc" -> {"Dev_RangeSizeSigned"}
+            [] Family \in {"alloc", "allocin"} -> {"Dev_RangeSizeSigned"}
             [] Family \in {"laws", "inrng"} -> {"Dev_InRangeRewrite"}
             [] Family \in {"access", "promo"} -> {"Dev_RankIntBelowInt8"}   \* any-typed operands: int8 result of I8Id with an int
             [] OTHER -> {}
 
 (* memory budgets each run is repeated under (C06); 0 stands for the default *)
-F_Budgets == CASE Family = "alloc" -> 1..7 [] OTHER -> {0}
+F_Budgets == CASE Family \in {"alloc", "allocin"} -> 1..7 [] OTHER -> {0}
 
 RunOf(t, asg, b) ==
   LET rho == EnvOf(asg)
@@ -271,9 +279,12 @@ RunOf(t, asg, b) ==
   IN [env |-> asg, budget |-> lim, exp |-> exp, dev |-> [d \in dvs |-> Outcome(t, rho, lim, {d})],
       i64 |-> cast("int64"), f64 |-> cast("float64")]
 
+(* (a run on which a catalogued deviation changes the outcome into something the value universe cannot express -  *)
+(* a quotient that is not a dyadic rational, say - could not be attributed either way: such runs are left out)     *)
 Runs(t) ==
   LET rs == {RunOf(t, asg, b) : asg \in Assignments(Mentions(t)), b \in F_Budgets}
-  IN {r \in rs : r.exp.ok \/ r.exp.c # "outside"}
+  IN {r \in rs : /\ (r.exp.ok \/ r.exp.c # "outside")
+                  /\ \A d \in DOMAIN r.dev : r.dev[d].ok \/ r.dev[d].c # "outside"}
 
 (* constructs at which the pinned checker's static type is known to differ from *)
 (* what is built at run time (catalogued deviations, C03): named so that a       *)
@@ -301,7 +312,7 @@ PromoRule(t) ==
         kdev |-> Higher(MemberType[t.l.name], MemberType[t.r.name], {"Dev_RankIntBelowInt8"})]
   ELSE [a |-> "", b |-> "", op |-> "", k |-> "", kdev |-> ""]
 
-Case == [src |-> Src(Tree), ty |-> TreeTy, n |-> n, typed |-> FullyTyped(Tree, ""), tags |-> CaseTags(Tree), promo |-> PromoRule(Tree), cdz |-> HasConstDivZero(Tree), cbp |-> HasConstBadPattern(Tree), runs |-> Runs(Tree)]
+Case == [src |-> Src(Tree), ty |-> TreeTy, n |-> n, typed |-> SoundScope(Tree), tags |-> CaseTags(Tree), promo |-> PromoRule(Tree), cdz |-> HasConstDivZero(Tree), cbp |-> HasConstBadPattern(Tree), runs |-> Runs(Tree)]
 
 (* C18: the defining identities of the collection builtins, of membership in *)
 (* an integer range and of slicing.  A complete tree of one of the root      *)
